@@ -6,7 +6,7 @@ open Lean Utv Utv.J Utv.Conv Utv.ConvJson Utv.C01
 /-! Line protocol of the C01 check (harness/c01.py).
 
   ty    : "any" | target (ConvJson) | {"rule": {"origin": ty|null, "k": "none|seq|tuple|map", "args": [ty], "vs": [[name, pyval]]}}
-        | {"comb": "|" | "^" | "&" | "~", "args": [ty]} | {"data": k}
+        | {"comb": "|" | "^" | "&" | "~", "args": [ty]} | {"data": k} | {"applied": target, "inner": ty}
   opts  : {"nec","ndl","addition": "unset|no|yes","items","keys","values": "throw|exclude|preserve","unresolved","ignore_constraints"}
   env   : {"enums": ConvJson env, "datas": [{"fields": [{"name","ty","required","default"?,"on_error"?}], "opts": opts}]}
   ops   : parse  {"ty","value","opts"}                         -> outcome
@@ -50,6 +50,9 @@ partial def decodeTy (j : Json) : Ty :=
     | none =>
     match obj? j "data" with
     | some k => .data (nat! k)
+    | none =>
+    match obj? j "applied" with
+    | some t => .applied (decodeTarget t) (decodeTy (fld j "inner"))
     | none => .plain (decodeTarget j)
 
 def decodeField (j : Json) : FieldDecl :=
